@@ -45,6 +45,9 @@ Record run := mkRun { r_init_empty : bool;      (* `not head_maintainer.heads` b
                                                    autocommit section: the section with the statements that ran — its
                                                    `finally:` still emits the begin) *)
 
+(* indices 0 .. n-1 of the version statements of a step *)
+Definition vidx (n:nat) : list N := map N.of_nat (seq 0 n).
+
 (* a context manager returned by begin_transaction in as_sql mode *)
 Definition with_ctx (d:dialect) (b:bt) (body:list rchunk) : list rchunk :=
   match b with
@@ -68,7 +71,7 @@ Definition step_chunks (d:dialect) (mc:mcfg) (k:N) (empty:bool) (s:ostep) : list
     ((if empty then exec_chunk d (RCreate k) else [])            (* self._version.create(self.connection) *)
      ++ [RRunning k]                                             (* static_output("-- Running ...")       *)
      ++ flat_map (item_chunks d (m_tddl mc) k) (os_body s)       (* step.migration_fn( **kw )              *)
-     ++ concat (repeat (exec_chunk d (RVersion k)) (os_nver s))). (* head_maintainer.update_to_step(step)  *)
+     ++ flat_map (fun j => exec_chunk d (RVersion k j)) (vidx (os_nver s))). (* head_maintainer.update_to_step(step) *)
 
 Fixpoint steps_chunks (d:dialect) (mc:mcfg) (k:N) (empty:bool) (steps:list ostep) : list rchunk :=
   match steps with
@@ -92,7 +95,7 @@ Definition open_ctx (d:dialect) (b:bt) (body:list rchunk) : list rchunk :=
   end.
 Definition step_core (d:dialect) (mc:mcfg) (k:N) (empty:bool) (s:ostep) : list rchunk :=
   (if empty then exec_chunk d (RCreate k) else []) ++ [RRunning k]
-  ++ flat_map (item_chunks d (m_tddl mc) k) (os_body s) ++ concat (repeat (exec_chunk d (RVersion k)) (os_nver s)).
+  ++ flat_map (item_chunks d (m_tddl mc) k) (os_body s) ++ flat_map (fun j => exec_chunk d (RVersion k j)) (vidx (os_nver s)).
 Fixpoint steps_chunks_cut (d:dialect) (mc:mcfg) (k:N) (empty:bool) (steps:list ostep) : list rchunk :=
   match steps with
   | [] => []
@@ -111,7 +114,7 @@ Definition offline_out (d:dialect) (c:ocfg) (r:run) : list rchunk :=
 
 Inductive event :=
   | Begin | Commit | Sep
-  | Running (k:N) | Stmt (k p:N) (auto:bool) | VersionStmt (k:N) | CreateVT (k:N) | DropVT
+  | Running (k:N) | Stmt (k p:N) (auto:bool) | VersionStmt (k j:N) | CreateVT (k:N) | DropVT
   | Unknown (t:str).
 
 Definition str_eqb : str -> str -> bool := list_eqb N.eqb.
@@ -131,7 +134,7 @@ Definition tok (d:dialect) (c:rchunk) : event :=
               else Unknown t
   | RRunning k => Running k
   | RStmt k p a => Stmt k p a
-  | RVersion k => VersionStmt k
+  | RVersion k j => VersionStmt k j
   | RCreate k => CreateVT k
   | RDrop => DropVT
   end.
